@@ -14,7 +14,7 @@
     The cross-language comparison of the emitted .go/.kt/.py text is decided
     per case by checks/c20.py (the code generators are not modelled). *)
 From Coq Require Import Sorting.Permutation Sorting.Sorted.
-From Verif Require Import Model.Compile Spec.Placeholders Judge.JQ Judge.J03 Judge.J20 Proofs.PositionalFacts Proofs.CompileFacts.
+From Verif Require Import Model.Compile Spec.Placeholders Judge.JQ Judge.J03 Judge.J20 Proofs.PositionalFacts Proofs.CompileFacts Model.KtPyGen Proofs.GoStructFacts Proofs.KtPyFacts.
 Open Scope string_scope.
 Open Scope list_scope.
 
@@ -88,3 +88,49 @@ Example C20_non_vacuous :
   map mark_of (sort_refs_loc [mkPR PLimitOffset Nil (param_ref_node 2 30) ""; mkPR PLimitCount Nil (param_ref_node 1 20) ""])
   = [(20, 1); (30, 2)]%Z.
 Proof. vm_compute. reflexivity. Qed.
+
+(** ** The generators' parameter naming (Model/KtPyGen.v: ktColumnsToStruct,
+    Params.Bindings, ktParamName/MemberName; Python's argument list), compared
+    exactly with the emitted Kotlin signature, Kotlin bind calls and Python
+    arguments of every query of the three-target runs. *)
+
+(** the k-th positional bind passes the variable of the k-th column's
+    placeholder number - with C20_compiled_partial: of the k-th placeholder of
+    the source statement; and there is one bind per placeholder occurrence *)
+Theorem C20_kotlin_bind_of_kth : forall cols k p,
+  nth_error cols k = Some p -> nth_error (kt_bindings cols) k = Some (kt_name_of cols (fst p)).
+Proof. exact kt_binding_of_kth. Qed.
+Print Assumptions C20_kotlin_bind_of_kth.
+Theorem C20_kotlin_binds_length : forall cols, List.length (kt_bindings cols) = List.length cols.
+Proof. exact kt_bindings_length. Qed.
+Print Assumptions C20_kotlin_binds_length.
+
+(** Kotlin's names depend on which placeholders occur, not on their order in
+    the text: the same names as a back-end working in number order *)
+Theorem C20_kotlin_names_order_independent : forall cols cols',
+  (forall a b, In a cols -> In b cols -> fst a = fst b -> a = b) ->
+  Permutation cols cols' -> kt_names cols = kt_names cols'.
+Proof. exact kt_names_order_independent. Qed.
+Print Assumptions C20_kotlin_names_order_independent.
+
+(** Kotlin and Python hand out exactly the suffixes Go's columnsToStruct does
+    ([spec_loop] = [suffixes_of] for distinct ids, GoStructFacts.loop_is_spec),
+    each keyed by its own notion of the parameter's name *)
+Theorem C20_kotlin_suffixes_partial : forall ps,
+  StronglySorted (fun a b => (fst a < fst b)%Z) ps ->
+  kt_names ps = map (fun x => (fst (fst x), suffixed (kt_param_base (fst x)) (snd x)))
+                    (combine ps (spec_loop ps [])).
+Proof. exact kt_names_suffixes. Qed.
+Print Assumptions C20_kotlin_suffixes_partial.
+Theorem C20_python_suffixes_partial : forall ps,
+  py_args ps = map (fun x => suffixed (fst x) (snd x))
+                   (combine (map py_param_base ps) (spec_loop (map (fun p => (fst p, py_param_base p)) ps) [])).
+Proof. exact py_args_suffixes. Qed.
+Print Assumptions C20_python_suffixes_partial.
+
+Example C20_names_example :
+  kt_bindings [(2, "n"); (2, "n"); (1, "n"); (3, "author_id"); (1, "n"); (4, "")]%Z
+    = ["n_2"; "n_2"; "n"; "authorId"; "n"; "dollar4"]
+  /\ kt_fields [(2, "n"); (2, "n"); (1, "n"); (3, "author_id"); (1, "n"); (4, "")]%Z = ["n_2"; "n"; "authorId"; "dollar4"]
+  /\ py_args [(1, "n"); (2, "n"); (3, "author_id"); (4, "")]%Z = ["n"; "n_2"; "author_id"; "dollar_4"].
+Proof. vm_compute. repeat split; reflexivity. Qed.
